@@ -17,6 +17,7 @@ from sa.fm import cstr
 RULES = {
     "R-C09-lower": "index >= 0 at every unchecked memoryview access (wraparound=False), or >= -len if wraparound is on",
     "R-C09-upper": "index <= len(buffer) - 1 at every unchecked memoryview access",
+    "R-C09-xcheck": "(thorough) an exact bounded walk with 3 loop iterations cross-checks the proof",
     "R-C09-scope": "every kernel with unchecked memoryview accesses is inside the analysable subset (affine indices, while/if/break structure)",
 }
 
@@ -73,6 +74,20 @@ def main(tier):
             else:
                 rep.undecided(rule, w, cons, "not entailed by the template invariants and no counterexample within 2 loop iterations; abstract state: %s"
                               % "; ".join(cstr(c) for c in (s.fail_state or [])[:8]))
+    if tier == "thorough":
+        # cross-check of the invariant proof: the exact bounded walk (3 loop iterations, no weakening)
+        # must not find a counterexample at any site that was proved
+        for f in funcs:
+            if f.boundscheck or not any(str(a.type).endswith("[:]") for a in f.node.args) or linabs.count_sites(f) == 0:
+                continue
+            try:
+                b = linabs.Analyzer(f, cex=True, unroll=3).run()
+            except linabs.Unknown:
+                continue
+            bad = [s for s in b.sites.values() if s.witness is not None]
+            where = "set_operations:%s" % f.name
+            rep.check(not bad, "R-C09-xcheck", where, "bounded exact exploration (3 iterations) finds no out-of-bounds access",
+                      "%d sites explored exactly" % len(b.sites), "exact exploration reaches %s out of bounds although the invariant proof passed" % (bad and bad[0].desc))
     rep.analysed["kernels"] = analysed
     rep.analysed["memoryview_sites"] = total_sites
     rep.floor("R-C09-scope", 35, total_sites)
